@@ -939,3 +939,71 @@ func ruleTimeoutUnset(w *World, r *Report) {
 		r.ok("TIMEOUT-UNSET", key, w.Pos(fn.Pos()), "default only for an unset timeout")
 	}
 }
+
+// PROP-MARKER (C02/C19): the property marker is tested where it is stripped.
+func rulePropMarker(w *World, r *Report) {
+	r.Rule("PROP-MARKER", "sibling agreement on what a property key is: parseProp strips the first byte of a key for which IdProperty holds (p[1:]) and idProperty / genPropId put the marker in front; therefore IdProperty must decide by the key's first byte (p[0] == '!' behind a length test, or strings.HasPrefix), not by the marker occurring anywhere in the key", 1)
+	fn := w.Func("core", "IdProperty")
+	p := fn.Params[0]
+	firstByte, prefix, anywhere := false, false, false
+	allInstrs(fn, func(in ssa.Instruction) {
+		switch x := in.(type) {
+		case *ssa.Lookup:
+			if x.X == ssa.Value(p) {
+				if c, ok := x.Index.(*ssa.Const); ok && c.Int64() == 0 {
+					firstByte = true
+				}
+			}
+		case *ssa.Index:
+			if x.X == ssa.Value(p) {
+				if c, ok := x.Index.(*ssa.Const); ok && c.Int64() == 0 {
+					firstByte = true
+				}
+			}
+		case *ssa.Call:
+			if f := x.Common().StaticCallee(); f != nil && f.Pkg != nil && f.Pkg.Pkg.Path() == "strings" {
+				switch f.Name() {
+				case "HasPrefix":
+					prefix = true
+				case "Index", "Contains", "ContainsRune", "IndexByte", "IndexRune", "LastIndex", "ContainsAny", "IndexAny":
+					anywhere = true
+				}
+			}
+		}
+	})
+	// and parseProp strips exactly one leading byte
+	pp := w.Func("core", "parseProp")
+	strips := false
+	allInstrs(pp, func(in ssa.Instruction) {
+		if sl, ok := in.(*ssa.Slice); ok {
+			if c, ok := sl.Low.(*ssa.Const); ok && c.Int64() == 1 && sl.High == nil {
+				strips = true
+			}
+		}
+	})
+	// p[:1] == "!" is the same test spelled with a slice
+	allInstrs(fn, func(in ssa.Instruction) {
+		if sl, ok := in.(*ssa.Slice); ok && sl.X == ssa.Value(p) && sl.Low == nil {
+			if c, ok := sl.High.(*ssa.Const); ok && c.Int64() == 1 {
+				prefix = true
+			}
+		}
+	})
+	allInstrs(pp, func(in ssa.Instruction) {
+		if c := callOf(in); c != nil {
+			if f := c.StaticCallee(); f != nil && f.Pkg != nil && f.Pkg.Pkg.Path() == "strings" && (f.Name() == "TrimPrefix" || f.Name() == "CutPrefix") {
+				strips = true
+			}
+		}
+	})
+	key := "fn=" + fname(fn)
+	switch {
+	case anywhere && !(firstByte || prefix):
+		// positive evidence only: the marker is searched for anywhere in the key and never tested at byte 0
+		r.violation("PROP-MARKER", key, w.Pos(fn.Pos()), "IdProperty looks for the marker anywhere in the key and never tests byte 0, although parseProp strips the first byte: a key that merely contains the marker (for example the documented no-index suffix `note!`) is taken for a property, gets a mangled canonical id and collides with others")
+	case !(firstByte || prefix) || !strips:
+		r.exempt("PROP-MARKER", key, w.Pos(fn.Pos()), "idiom not recognised (neither a byte-0 test nor a search anywhere / no recognised strip in parseProp): not decided by this rule")
+	default:
+		r.ok("PROP-MARKER", key, w.Pos(fn.Pos()), "marker tested at byte 0 and stripped from byte 0")
+	}
+}
